@@ -49,7 +49,10 @@ def one_case(chk, cid, method, cfg, rows, cols, rng, mode, dens, inv):
     before_d = ds["disparity_map"].data.copy()
     before_vm = ds["validity_mask"].data.copy()
     before_conf = ds["confidence_measure"].data.copy()
-    f = pfilter.AbstractFilter(cfg=dict(cfg), image_shape=(rows, cols), step=1)
+    # image_shape is the shape announced when the step is configured (it sizes the margins); the map that is filtered
+    # later need not have it (another scale of the pyramid, a cropped map): the result must depend on the map alone
+    shape = [(rows, cols), (rows, cols), (2 * rows + 1, cols + 7), (2, 3), (1, max(cols - 1, 1))][rng.randint(5)]
+    f = pfilter.AbstractFilter(cfg=dict(cfg), image_shape=shape, step=1)
     f.filter_disparity(ds)
     after_d = ds["disparity_map"].data
     after_conf = ds["confidence_measure"].data
